@@ -320,10 +320,13 @@ impl<'s, M: Matcher, S: Sink> MultiLine<'s, M, S> {
     }
 
     fn find(&mut self) -> Result<Option<Range>, S::Error> {
-        match self.core.matcher().find(&self.slice[self.core.pos()..]) {
+        // Search at an offset into the whole slice (instead of searching a
+        // sub-slice) so that look-around assertions are evaluated against the
+        // text that actually precedes the position where the search resumes.
+        match self.core.matcher().find_at(self.slice, self.core.pos()) {
             Err(err) => Err(S::Error::error_message(err)),
             Ok(None) => Ok(None),
-            Ok(Some(m)) => Ok(Some(m.offset(self.core.pos()))),
+            Ok(Some(m)) => Ok(Some(m)),
         }
     }
 
